@@ -77,6 +77,8 @@ def visitor_table(ctx, vs_body, vm_body, struct_adt):
         if len(vs) != 1:
             continue
         for l, pre in marks[0][2].items():
+            if not isinstance(l, int):
+                continue    # loop-carried heap field, not a local
             if fr.locals.get(l) != ("havoc", key, l) and "Option<" in fr.body.locals[l]["ty"]:
                 nv = fr.locals.get(l)
                 if isinstance(nv, tuple) and nv[0] == "agg" and nv[2] == "Some":
